@@ -17,7 +17,9 @@
 (*   <<"bin",op,l,r>> <<"post",e,op>> <<"tern",c,a,b>> <<"list",es>>        *)
 (*   <<"map",kvs>> <<"stmt",es>> <<"none">>                                 *)
 (* Context: a function from names to <<"var", value>> | <<"fn", handler>>. *)
-(* Environment E: [handlers |-> [h |-> [ret |-> value, act |-> action]],   *)
+(* Environment E: [handlers |-> [h |-> [ret |-> value, act |-> action,      *)
+(*   copy |-> <<>> | <<from, to>>]] (a handler may lock the context it is  *)
+(*   evaluated in and write to it: copy rebinds `to` to `from`'s entry),   *)
 (*   gfun / gprefix / gpostfix |-> [name |-> h], ginfix |-> [op |-> <<h,   *)
 (*   "CALC"|"SETTER">>], fault |-> <<k, "err"|"panic">>] - user handlers   *)
 (*   are scripted: the k-th invocation overall faults, every other one     *)
@@ -43,6 +45,11 @@ InfixType(E, op) == IF InDom(E.ginfix, op) THEN E.ginfix[op][2] ELSE IF op \in B
 
 \* result of invoking a resolved handler; n = user-handler invocations so far (before this one)
 \* <<status, value, logged?>> with status ok | err | panic | dc
+\* the effect a user handler has on the context it is evaluated in (it runs with no lock held, so it may take the lock itself)
+HandlerCopy(E, h) == IF "copy" \in DOMAIN E.handlers[h] THEN E.handlers[h].copy ELSE <<>>
+CtxAfter(E, r, ctx, n) ==
+  IF r[1] = "user" /\ E.fault[1] # n + 1 /\ HandlerCopy(E, r[2]) # <<>> /\ InDom(ctx, HandlerCopy(E, r[2])[1])
+  THEN Bind(ctx, HandlerCopy(E, r[2])[2], ctx[HandlerCopy(E, r[2])[1]]) ELSE ctx
 Invoke(E, r, kind, args, n) ==
   IF r[1] = "user" THEN
      IF E.fault[1] = n + 1 THEN <<E.fault[2], VNone, TRUE>> ELSE <<"ok", E.handlers[r[2]].ret, TRUE>>
@@ -61,7 +68,7 @@ Call(E, r, kind, args, ctx, log, n) ==
   LET o == Invoke(E, r, kind, args, n)
       log2 == IF o[3] THEN Append(log, LogEntry(r[2], args)) ELSE log
       n2 == IF o[3] THEN n + 1 ELSE n
-  IN R(o[1], o[2], ctx, log2, n2)
+  IN R(o[1], o[2], CtxAfter(E, r, ctx, n), log2, n2)
 Den(E, t, ctx, log, n) ==
   CASE t[1] = "lit" -> R("ok", t[2], ctx, log, n)
     [] t[1] = "none" -> R("ok", VNone, ctx, log, n)
@@ -214,12 +221,13 @@ InvokeHandler ==
   /\ status = "run" /\ work # <<>> /\ Head(work)[1] = "invoke"
   /\ LET w == Head(work) r == w[2] o == Invoke(env, r, w[3], w[4], n) IN
      /\ IF o[3] THEN log' = Append(log, <<r[2], w[4], ctxLock = "free">>) /\ n' = n + 1 ELSE UNCHANGED <<log, n>>
+     /\ ctx' = IF o[3] /\ ~(env.handlers[r[2]].act = "lockctx" /\ ctxLock = "held") THEN CtxAfter(env, r, ctx, n) ELSE ctx
      /\ IF o[3] /\ env.handlers[r[2]].act = "lockctx" /\ ctxLock = "held" THEN Fail("deadlock") /\ UNCHANGED ctxLock
         ELSE IF o[1] = "ok" THEN PushVal(o[2]) /\ work' = Tail(work) /\ UNCHANGED <<status, ctxLock>>
         ELSE IF o[1] = "err" /\ ContinueAfterErr /\ o[3] THEN PushVal(VNone) /\ work' = Tail(work) /\ UNCHANGED <<status, ctxLock>>
         ELSE /\ Fail(o[1])
              /\ ctxLock' = IF o[1] = "panic" /\ ctxLock = "held" THEN "poisoned" ELSE IF ctxLock = "held" THEN "free" ELSE ctxLock
-  /\ UNCHANGED <<env, prog, ctx0, ctx>>
+  /\ UNCHANGED <<env, prog, ctx0>>
 
 Finish == /\ status = "run" /\ work = <<>> /\ status' = "ok" /\ UNCHANGED <<env, prog, ctx0, work, vals, ctx, ctxLock, log, n>>
 MStep == EvalNode \/ Continue \/ InvokeHandler \/ Finish
